@@ -32,7 +32,7 @@ def gen_cases(tier, seed):
     rng = random.Random(161616 + seed)
     cases = []
     grids = [(1, 1), (2, 1), (1, 2), (2, 2), (3, 1), (3, 2)]
-    for k in range(48 if tier == "quick" else 8000):
+    for k in range(48 if tier == "quick" else 20000):
         deg = rng.choice([1, 2, 3, 3, 3, 4, 5])
         nv = rng.randint(max(5, deg + 2), 40)
         cases.append({"kind": "rho", "deg": deg, "npts": [rng.choice([4, 5, 6]), rng.choice([4, 5]), rng.choice([4, 5, 6]), nv], "nprocs": list(grids[k % len(grids)]),
